@@ -118,6 +118,7 @@ class Dir:
         self.pending = False
         self.flushed = 0
         self.remaining = 0
+        self.failed_since_tamper = False
         self.broken = False     # some read failed after consuming bytes / a nonce
         self.affects = INF      # first message whose bytes in flight were tampered with
         self.slin = 0
@@ -132,7 +133,8 @@ def pred_tr(c, stats):
     * Flush: returned counts of one message sum to its length.
     * ReadMessage: a successful read at receive position 2i returns exactly message i (so: the
       written messages, in order, never altered, never one that was not completely sent); the
-      first message whose ciphertext was tampered with is never returned; a complete untampered
+      first message whose ciphertext was tampered with is not returned by the first read that
+      reaches it (that read fails); a complete untampered
       message on an unbroken stream is delivered.  After a failed read (lnd drops the connection
       there) only authenticity is required of later reads."""
     f = []
@@ -203,7 +205,7 @@ def pred_tr(c, stats):
                 if odd:
                     # header/body confusion after a failed header read; see notes/C11.md
                     stats["odd_position_reads"] += 1
-                elif idx == d.affects:
+                elif idx == d.affects and not d.failed_since_tamper:
                     f.append("op %d: read of message %d returned data although its ciphertext was "
                              "tampered with" % (i, idx))
                 elif idx >= d.completed:
@@ -223,6 +225,7 @@ def pred_tr(c, stats):
                     stats["tamper_rejected"] += 1
                 if pl > 0 or l != d.rlin:
                     d.broken = True
+                    d.failed_since_tamper = True
                 if not (d.rlin <= l <= d.rlin + 2):
                     f.append("op %d: recv position moved %d -> %d on a failed read" % (i, d.rlin, l))
             d.rlin = l
@@ -251,6 +254,7 @@ def pred_tr(c, stats):
             stats["tampers"][o[2][0]] = stats["tampers"].get(o[2][0], 0) + 1
             if o[3] is not None:
                 d.affects = min(d.affects, o[3])
+                d.failed_since_tamper = False
     return f
 
 
@@ -272,11 +276,11 @@ def run_once(ctx, suffix="", env=None, race=False):
     return rc, read_jsonl(trace), out
 
 
-def predicate_all(ctx, rows, stats, limit=3):
+def predicate_all(ctx, rows, stats, limit=3, env=None):
     nfail = 0
     for ci, c in enumerate(rows):
         if c["kind"] == "hs":
-            f, th = pred_hs(c), ("C11_handshake_rejects_partial" if c["completed"] else "C11_handshake_agrees")
+            f, th = pred_hs(c), ("C11_handshake_agrees" if (c["target"] == 0 and not c["tampered"]) else "C11_handshake_rejects_partial")
         elif c["kind"] == "tr":
             f, th = pred_tr(c, stats), "C11_stream_roundtrip"
             if f and ("tamper" in f[0] or "position" in f[0] or "twice" in f[0]):
@@ -289,7 +293,8 @@ def predicate_all(ctx, rows, stats, limit=3):
                 small = c if len(json.dumps(c)) < 200000 else {"kind": c["kind"], "case_index": ci,
                                                                "note": "case too large; rerun with the seed"}
                 ctx.violation("impl_violates_predicate", th,
-                              {"case_index": ci, "fails": f[:10], "case": small},
+                              {"case_index": ci, "fails": f[:10], "case": small,
+                               "harness_env": env or {"VERIF_SEED": str(ctx.seed)}},
                               signature="noise %s %s" % (c["kind"], f[0][:60]))
     return nfail
 
@@ -315,7 +320,9 @@ def run(ctx):
     env = {}
     if ctx.replay:
         try:
-            env["VERIF_SEED"] = str(json.load(open(ctx.replay)).get("seed", ctx.seed))
+            rp = json.load(open(ctx.replay))
+            env["VERIF_SEED"] = str(rp.get("seed", ctx.seed))
+            env.update({k: str(v) for k, v in (rp.get("detail", {}).get("harness_env") or {}).items()})
         except Exception:
             pass
     rc, rows, out = run_once(ctx, env=env, race=False)
@@ -330,13 +337,26 @@ def run(ctx):
     model_rows = [i for i, c in enumerate(rows) if c["kind"] in ("hs", "tr")]
     nsh = 12
     order = [i for s in range(nsh) for i in model_rows[s::nsh]]
-    terms = [case_term(rows[i]) for i in order]
+    terms = ["(%s)%%N" % case_term(rows[i]) for i in order]
     per = (len(terms) + nsh - 1) // nsh
-    ok, bad, logs = coq_mismatches(ctx.uid(), IMPORTS, terms, shard=max(1, per), scope="N_scope",
-                                   timeout=2400)
+    ok, bad, logs = coq_mismatches(ctx.uid(), IMPORTS, terms, shard=max(1, per), timeout=2400)
     if not ok:
         ctx.violation("correspondence_mismatch", "Noise.Exec (model evaluation failed)",
                       {"logs": logs}, signature="model-eval", failing_input=False)
+    if bad and nfail == 0:
+        # the code no longer behaves like the model: directed search for an input on which the
+        # property predicate itself fails (same generators, many more cases of the kinds that
+        # disagreed, other seeds)
+        kinds_bad = {rows[order[ti]]["kind"] for ti, _ in bad}
+        for extra in (1, 2, 3):
+            env2 = {"VERIF_SEED": str(ctx.seed * 7919 + extra), "VERIF_N_CONN": "0",
+                    "VERIF_N_HS": "4000" if "hs" in kinds_bad else "0",
+                    "VERIF_N_TR": "400" if "tr" in kinds_bad else "0",
+                    "VERIF_N_ROT": "8" if "tr" in kinds_bad else "0"}
+            rc2, rows2, _ = run_once(ctx, suffix="d%d" % extra, env=env2)
+            if rc2 == 0 and predicate_all(ctx, rows2, new_stats(), limit=1, env=env2):
+                ctx.note("directed search found a failing input with seed %s" % env2["VERIF_SEED"])
+                break
     for ti, opsidx in bad[:3]:
         c = rows[order[ti]]
         detail = {"case_index": order[ti], "kind": c["kind"], "op_indices": opsidx[:20]}
